@@ -101,6 +101,7 @@ class Request:
     __slots__ = ("op", "text", "variables", "operation_name", "wseed",
                  "faults", "exp", "variant", "nonfinite", "configs",
                  "ninstr", "mws", "tracer", "skew", "preparsed", "index",
+                 "noloc",
                  "gen", "document", "repeat_of", "exp_snapshot", "l2", "root")
 
 
@@ -124,6 +125,7 @@ def _gen_request(draws, spec, bundle, idx, profile, want_mut, tier="quick",
         req.variables = dict(req.op.variables)
         req.operation_name = prev.operation_name
         req.variant = "normal"
+        req.noloc = False
         req.preparsed = rs.chance(2, 3, "same_document_object")
         if req.preparsed:
             if prev.document is None:
@@ -142,6 +144,7 @@ def _gen_request(draws, spec, bundle, idx, profile, want_mut, tier="quick",
         kind = "mutation"
     req.variant = "normal"
     req.preparsed = False
+    req.noloc = False
     if profile.get("variants") and rs.chance(1, 3, "variant"):
         # "truncated anywhere" and "corrupted in transit" reach the most
         # lexer / parser states per request: weighted up
@@ -188,6 +191,8 @@ def _gen_request(draws, spec, bundle, idx, profile, want_mut, tier="quick",
     elif req.variant == "preparsed":
         req.variant = "normal"
         req.preparsed = True
+        # parse(..., no_location=True): a document without source positions
+        req.noloc = rs.chance(1, 3, "no_location")
     req.text = text
     req.wseed = rs.below(1 << 30, "wseed")
     # (only uncorrupted requests get non-finite floats: for those the model
@@ -724,7 +729,8 @@ def _execute(config, bundle, spec, req, sched, policy):
     world = World(spec, req.wseed, req.faults, nonfinite=req.nonfinite)
     request = {
         "text": (req.document if req.document is not None
-                 else parse(req.text)) if req.preparsed else req.text,
+                 else parse(req.text, no_location=req.noloc))
+        if req.preparsed else req.text,
         "variables": req.variables,
         "operation_name": req.operation_name,
         "root": req.root,
@@ -786,7 +792,18 @@ def _evaluate(res, prop, config, req, out, hooks):
         return
     if req.variant == "normal":
         if exp.crash:
-            if out.status == "raised" and isinstance(out.exc, Boom):
+            key = None
+            import concurrent.futures as _cf
+            boom_classes = {
+                BOOM_CLASSES[int(v[4:] or 0) % len(BOOM_CLASSES)].__name__
+                for v in req.faults.values() if v.startswith("boom")}
+            if out.status == "raised" and (
+                    isinstance(out.exc, Boom)
+                    # a cancelled child cancels the futures chained to it:
+                    # the overall result fails with a CancelledError of its
+                    # own, which is a failure all the same
+                    or ("BoomCancelled" in boom_classes
+                        and isinstance(out.exc, _cf.CancelledError))):
                 res.count("probe:crash_surfaced")
             elif out.status == "ok":
                 classes = sorted({
@@ -813,8 +830,18 @@ def _evaluate(res, prop, config, req, out, hooks):
                 V.append(Violation(("C08",), "crash_lost",
                                    (config, "other-exception"),
                                    "got %r" % (out.exc,)))
-            V.extend(oracles.check_hooks(
-                config, "crashed", exp, events, tags, mw_tags, crashed=True))
+            hv = oracles.check_hooks(
+                config, "crashed", exp, events, tags, mw_tags, crashed=True)
+            if out.status == "ok" and key and \
+                    key[0] == "ExecutionError-from-resolver":
+                # the same listed defect seen through the hooks: the entry
+                # point answered from its 'except ExecutionError', so
+                # on_query_end fired and on_execution_end did not
+                hv = [Violation(v.props, v.oracle,
+                                ("ExecutionError-from-resolver",)
+                                + tuple(v.key[1:]), v.detail)
+                      if v.oracle == "stage_nesting" else v for v in hv]
+            V.extend(hv)
             return
         if req.nonfinite and _has_nonfinite(exp.data):
             # A Float position holds NaN/Infinity.  py-gql treats values a
@@ -846,7 +873,9 @@ def _evaluate(res, prop, config, req, out, hooks):
                     "whole mutation: %r" % (out.exc,)))
             return
         V.extend(oracles.check_response(("C04", "C08"), config, exp,
-                                        out.result))
+                                        out.result, locations=not req.noloc))
+        if req.noloc:
+            res.count("probe:document_without_locations")
         if req.op.kind == "mutation":
             V.extend(oracles.check_serial(config, exp, events))
         V.extend(oracles.check_wellformed("execution", config, out.result,
